@@ -8,7 +8,7 @@ from .c01 import _contracts, _drain, _lib
 
 
 def plan(tier, seed):
-    n, nsh = (6400, 16) if tier == 'quick' else (240000, 16)
+    n, nsh = (16000, 16) if tier == 'quick' else (400000, 16)
     return [{'part': 'random', 'n': n // nsh, 'shard': sh} for sh in range(nsh)]
 
 
